@@ -314,6 +314,9 @@ func c02(r *Run) {
 			edgesEstablishing(nodeRelease, fieldNonNilFact("linkBufferNode", "origin")), func(i ssa.Instruction) bool { return isCall(i, nodeRelease) }, nil, nil, "origin.Release() on every path from origin != nil")
 	}
 
+	// a recycled node struct carries no stale origin/buf (Refer would count a foreign root): C03.R2
+	r.borrow([]string{"C03.R2:cleared-before-pooled"}, "C03.R2", "C02.R5", func() { c03(r) })
+
 	// ---- R6 an exposed block is not truncated for re-use before Release -------------------------------
 	for _, fn := range w.Funcs {
 		for _, ins := range allIns(fn) {
